@@ -98,13 +98,16 @@ def control_field_sweep(cases, thorough, seed):
         if any(e["e"] == "y" and e["a"] == "err" for e in c["log"]) or c["frames"][0]["bytes"] != [128, 0, 0] or any(f["trunc"] for f in c["frames"]):
             continue
         base[c["cmd"]] = c
+    import random
+    rnd = random.Random(seed)
     cfs = [(a, b) for a in (0x80, 0x84) for b in range(256)]
     if thorough:
         cfs += [(a, b) for a in range(256) for b in (0x00, 0x1e, 0xff) if a not in (0x80, 0x84)]
     else:
-        import random
-        rnd = random.Random(seed)
         cfs += [(rnd.randrange(256), rnd.randrange(256)) for _ in range(64)]
+    # the classes in which ZVT packets live, every instruction: in place of the acknowledgement and of the first reply, for a one-shot
+    # sequence, a looping one and the upload (thorough: every control field there is)
+    wide = [(a, b) for a in ((range(256)) if thorough else (0x04, 0x05, 0x06, 0x08, 0x0f, 0xff)) for b in range(256)]
     out = []
     for cmd, c in sorted(base.items()):
         keep = {k: v for k, v in c.items() if k not in ("frames", "log", "left")}
@@ -112,6 +115,10 @@ def control_field_sweep(cases, thorough, seed):
             out.append(dict(keep, frames=[{"bytes": [a, b, 0], "trunc": False}] + c["frames"][1:], fault="cf-sweep", chunk=0))
         for code in range(256):
             out.append(dict(keep, frames=[c["frames"][0], {"bytes": [0x84, code, 0], "trunc": False}] + c["frames"][1:], fault="nack-sweep", chunk=0))
+        if cmd in ("Registration", "Authorization", "WriteFile"):
+            for a, b in wide:
+                out.append(dict(keep, frames=[{"bytes": [a, b, 0], "trunc": False}] + c["frames"][1:], fault="cf-sweep", chunk=0))
+                out.append(dict(keep, frames=[c["frames"][0], {"bytes": [a, b, 0], "trunc": False}] + c["frames"][1:], fault="cf-sweep-reply", chunk=0))
     return out
 
 
